@@ -206,11 +206,11 @@ func allChecks() []*Check {
 			Harnesses: []Harness{
 				{Pkg: "client", Func: "VerifC10Step", Asserts: []string{"penalty-rule", "hold-iff-over-10s"}},
 				{Pkg: "client", Func: "VerifC10Write", Asserts: []string{"flood-never-sleeps", "sleeps-own-charge", "sleep-before-write", "no-sleep-when-under", "penalty-rule"}},
-				{Pkg: "client", Func: "VerifC10Window", Quick: map[string]int{"K": 3}, Thorough: map[string]int{"K": 4}, Solver: "cvc5-int", Asserts: []string{"window-bound", "penalty-rule", "held-own-charge"}},
+				{Pkg: "client", Func: "VerifC10Window", Quick: map[string]int{"K": 4}, Thorough: map[string]int{"K": 5}, Solver: "z3-lia", Asserts: []string{"window-bound", "penalty-rule", "held-own-charge"}},
 			},
-			Bounds: map[string]string{"quick": "one rateLimit step from ANY state (penalty 0..2^40 ns, line length 0..2^20, any clock readings); write() for lines of 0..3 bytes, Flood symbolic; 3 consecutive lines (lengths from {0,120,510}) from a fresh client with arbitrary idle gaps",
-				"thorough": "same with 4 consecutive lines"},
-			Outside:     []string{"runs of more than 3 (quick) / 4 (thorough) lines for the window bound (the per-step rule is checked from arbitrary states, i.e. for histories of any length)", "real sleeping and the OS clock (replaced by the model clock)", "a scheduling delay of more than 2 s between a line's accounting/hold and its socket write (environment contract)"},
+			Bounds: map[string]string{"quick": "one rateLimit step from ANY state (penalty 0..2^40 ns, line length 0..2^20, any clock readings); write() for lines of 0..3 bytes, Flood symbolic; 4 consecutive lines (lengths from {0,120,510}) from a fresh client with arbitrary idle gaps",
+				"thorough": "same with 5 consecutive lines"},
+			Outside:     []string{"runs of more than 4 (quick) / 5 (thorough) lines for the window bound (the per-step rule is checked from arbitrary states, i.e. for histories of any length)", "real sleeping and the OS clock (replaced by the model clock)", "a scheduling delay of more than 2 s between a line's accounting/hold and its socket write (environment contract)"},
 			Stubs:       []string{"time.Now = fresh non-decreasing solver variable per call", "time.After(d) = records d, advances the model clock by >= d", "bufio model over in-memory conn"},
 			Assumptions: []string{"window bound: each line reaches the socket within 2 s (the minimum charge) of the end of its accounting or hold; without this the solver finds a 6.25 s stall between rateLimit returning and WriteString that the real code cannot exhibit"},
 			QuickBudget: 5 * time.Minute, ThorBudget: 40 * time.Minute,
